@@ -231,7 +231,11 @@ impl PixelDataReader for JpegAdapter {
             .whatever_context("JPEG decoder failure")?;
 
         let decoded_len = decoded.len();
-        dst[dst_offset..(dst_offset + decoded_len)].copy_from_slice(&decoded);
+        // the image attributes may not agree with the JPEG stream
+        let Some(dst_frame) = dst.get_mut(dst_offset..(dst_offset + decoded_len)) else {
+            whatever!("JPEG frame decodes to more data than the image attributes account for");
+        };
+        dst_frame.copy_from_slice(&decoded);
 
         Ok(())
     }
